@@ -75,6 +75,14 @@ def site_problems(ctx, n):
                 dict(name="Sub", type="Site", children=[dict(name=z, type="Process Zone") for z in zs[:2]])]
                 + [dict(name=z, type="Process Zone") for z in zs[2:]])
             m = dict(m, shapes=m["shapes"] + ["nested-site"])
+        if ctx.rng.random() < 0.15:
+            # switched-off utility rows that would reach everything: they take no duty and must not suppress the default utilities
+            lo = min(min(x["t_supply"], x["t_target"]) for x in prob["streams"])
+            hi = max(max(x["t_supply"], x["t_target"]) for x in prob["streams"])
+            prob["utilities"] = prob["utilities"] + [
+                dict(name="OffCW", type="Cold", t_supply=lo - 40.0, t_target=lo - 40.0, heat_flow=0.0, dt_cont=5.0, htc=1.0, price=1.0, active=False),
+                dict(name="OffST", type="Hot", t_supply=hi + 40.0, t_target=hi + 40.0, heat_flow=0.0, dt_cont=5.0, htc=1.0, price=50.0, active=False)]
+            m = dict(m, shapes=m["shapes"] + ["inactive_utilities"])
         probs.append((prob, m))
     return probs
 
